@@ -37,6 +37,13 @@ func (r *funcRun) entryState() *State {
 	st.declare("alloc0", "Int")
 	st.alloc = Term{S: "alloc0", Sort: SInt}
 	st.assume(Le(IntLit(0), st.alloc))
+	// the error values of the package exist before the call: nothing allocated later is one of them
+	for _, g := range r.v.errGlobals {
+		st.assume(Le(Term{S: sym("err." + g), Sort: SInt}, st.alloc))
+	}
+	for _, g := range extErrGlobals {
+		st.assume(Le(Term{S: sym("err." + g), Sort: SInt}, st.alloc))
+	}
 	r.params = map[string]Value{}
 	r.ptypes = map[string]types.Type{}
 	r.lets = map[string]Value{}
@@ -825,6 +832,10 @@ func (r *funcRun) copyOp(st *State, cc *ssa.CallCommon, instr ssa.Instruction) V
 			SlOff(d).S, SlOff(d).S, n.S, E, SlArr(sv).S, sv.S, SlOff(d).S, E, SlArr(d).S)
 		st.cmds = append(st.cmds, fmt.Sprintf("(assert (forall ((k Int)) (! (= (select %s k) %s) :pattern ((select %s k)))))", As, val, As))
 		st.setComp(lc.Name, sig, fmt.Sprintf("(store %s %s %s)", E, SlArr(d).S, As))
+		// positional form (a consequence of the definition above): element j of the destination is
+		// element j of the source; either side is a trigger
+		st.cmds = append(st.cmds, fmt.Sprintf("(assert (forall ((j Int)) (! (=> (and (<= 0 j) (< j %s)) (= (select %s (at %s j)) (select (select %s %s) (at %s j)))) :pattern ((at %s j)) :pattern ((at %s j)))))",
+			n.S, As, d.S, E, SlArr(sv).S, sv.S, d.S, sv.S))
 	}
 	return n
 }
